@@ -280,6 +280,7 @@ theorem observe_acc {s : State} (o : Obs) (h : (observe s o).2.isError = false) 
   | repr x => exact ⟨none, by simp only [Spec.apply]; rw [hsame], trivial⟩
   | descendants g => exact ⟨none, by simp only [Spec.apply]; rw [hsame], trivial⟩
   | isVisible x => exact ⟨none, by simp only [Spec.apply]; rw [hsame], trivial⟩
+  | getter x => exact ⟨none, rfl, trivial⟩
   | touch xs => exact ⟨none, by simp only [Spec.apply]; rw [hsame], trivial⟩
   | len g => exact ⟨_, rfl, rfl⟩
   | count g x => exact ⟨_, rfl, rfl⟩
